@@ -51,7 +51,10 @@ def cases(draw, tier):
   case = {'model': mspec, 'recipe': recipe, 'calib_seeds': [draw(st.integers(0, 99)) for _ in range(draw(st.integers(1, 2)))],
           'input_seed': 0}
   if draw(st.booleans()):
-    case['stats'] = {'seed': draw(st.integers(0, 9999)), 'wild': draw(st.booleans())}
+    case['stats'] = {'seed': draw(st.integers(0, 9999)), 'wild': draw(st.booleans()),
+                     # overall magnitude of the constructed ranges (small ones give
+                     # scales near 1e-8)
+                     'mag': draw(st.sampled_from([1.0, 1.0, 1.0, 1e-2, 1e-3, 3e-4, 3e-4]))}
   draw(engine.usage_dimensions(case))
   return case
 
